@@ -68,6 +68,9 @@ def run_demo_oracles(out: Outcome, prop: str) -> None:
 
 
 def main() -> int:
+    import faulthandler
+    import signal as _sig
+    faulthandler.register(_sig.SIGUSR1, all_threads=True)     # kill -USR1 <pid> prints where a stuck check is
     ap = argparse.ArgumentParser()
     ap.add_argument("prop")
     ap.add_argument("--tier", default=os.environ.get("VERIF_TIER", "quick"), choices=["quick", "thorough"])
